@@ -746,10 +746,10 @@ def check_doc(rec, gen, cfg, max_times=12):
       missing = [x for x in before[t] if x not in after[t]]
       causes = set()
       for path, _ in extra + missing:
-        chain = [pre_el[path[:i]] for i in range(len(path))]
+        chain = [pre_el[path[:i]] for i in range(len(path)) if path[:i] in pre_el]
         own = {id(e.get_region()) for e in chain if e.get_region() is not None}
         rids = [e.get_region().get_id() for e in chain if e.get_region() is not None]
-        post_r = [post_el[path[:i]].get_region() for i in range(len(path))]
+        post_r = [post_el[path[:i]].get_region() for i in range(len(path)) if path[:i] in post_el]
         rids += [x.get_id() for x in post_r if x is not None]
         if len(own) > 1:
           causes.add("conflicting-nested-regions")
@@ -811,7 +811,7 @@ def check_doc(rec, gen, cfg, max_times=12):
             related = {q: x for q, x in pre_el.items() if q[:1] != ("r",) and not isinstance(x, m.Text) and
                        (q == ppath[:len(q)] or q[:len(ppath)] == ppath)}
             cands = sorted({x.get_region().get_id() for q, x in related.items() if x.get_region() is not None and
-                            post_el[q].get_region() is not None and post_el[q].get_region().get_id() == reg.get_id()})
+                            q in post_el and post_el[q].get_region() is not None and post_el[q].get_region().get_id() == reg.get_id()})
             iv = doc0.get_initial_value(SP.TextAlign) if doc0.has_initial_value(SP.TextAlign) else None
             want = {O.inherited(chain + [pre[c]["text_align"]], iv, sp.TextAlignType.start) for c in cands} or \
                    {O.inherited(chain, iv, sp.TextAlignType.start)}
@@ -861,7 +861,7 @@ def chunk(job):
 def main():
   args = parse_args()
   quick = args.tier == "quick"
-  chunks = 96 if quick else 3000      # chunks of 10 documents per scope
+  chunks = 64 if quick else 1500      # chunks of 10 documents per scope
   per = 10
   ncfg = 2 if quick else 3
   rec = Recorder("C16", "seeded random canonical-model documents (rtc/docgen.py enriched by rtc/c16.py: 0-6 regions from a pool of timings, "
